@@ -16,7 +16,7 @@ import (
 	"strings"
 )
 
-func init() { extraGens = append(extraGens, genFieldTypes) }
+func init() { extraGens = append(extraGens, namedGen{"FieldTypes.lean", genFieldTypes}) }
 
 // embeddedFamily returns the name of the single embedded struct of `type name struct{ family }`.
 func embeddedFamily(p *pkgInfo, name string) (string, bool) {
